@@ -10,4 +10,11 @@ def run_selftest(prop, A):
         from .variants import sweep
     except ImportError:
         return {"variants": 0, "caught": 0, "twins": 0, "silent": 0, "missed": [], "note": "variant sweep not built yet"}
-    return sweep(prop, A)
+    out = sweep(prop, A)
+    from .variants import replay_seeded
+    rs = replay_seeded(prop, A)
+    out["seeded_replayed"] = rs["replayed"]
+    out["seeded_reported"] = rs["reported"]
+    out["seeded_not_applicable"] = rs["not_applicable"]
+    out["missed"] = list(out.get("missed", [])) + rs["missed"]
+    return out
